@@ -55,6 +55,10 @@ PROPS = {
              {"checks": 10000, "timeout": 300},
              {"checks": 40000, "shards": 16, "timeout": 1800},
              assumptions=COMMON_ASSUME),
+    "C19": P("TestC19", "exploration",
+             {"checks": 6000, "timeout": 300},
+             {"checks": 20000, "shards": 16, "timeout": 1800},
+             assumptions=COMMON_ASSUME),
 }
 
 TRUST = "Trusted base: Go runtime, net/http, compress/*, google.golang.org/protobuf, rapid, and the harness's own reference wire layer as the reading of the protocol specs. Generated search: absence of violations is evidence over the explored cases only."
@@ -113,6 +117,11 @@ META = {
     "C11": {
         "technique": 'property-based testing (rapid) with hostile structured mutations and raw bytes on both client and backend side; recovered panics attributed by stack frame, watchdog on return, recording ResponseWriter counting response heads and checking Content-Length; thorough adds native coverage-guided fuzzing of the request and response bytes',
         "level_text": 'Robustness exploration: arbitrary methods, paths, queries, headers and bodies from the client and arbitrary status, headers, grpc-status texts, bodies, write patterns, late writes and panics from the backend; the only assertions are no crash in vanguard, termination, and a frameable response head/body.',
+        "level_note": TRUST,
+    },
+    "C19": {
+        "technique": 'property-based testing (rapid): generated GET requests over methods of every idempotency level, codecs with and without stable encoding, and a metamorphic limit triple (observed URL length -1/0/+1); the GET/POST decision rule of the statement and an independent Connect-GET query decoder as oracle',
+        "level_text": 'Generated exploration of inbound Connect GET handling (405+Allow vs decode-equals-POST) and of the outbound GET/POST decision toward Connect backends, with the URL-length limit placed exactly at the boundary learned from a first run.',
         "level_note": TRUST,
     },
 }
